@@ -99,27 +99,32 @@ const LEAVES: [T; 5] = [T::Mem(1), T::Feed(1), T::Feed(2), T::Delay(1), T::Delay
 
 /// all `Call` trees with nesting depth <= depth, arity <= 3, leaves <= ml, calls <= mc
 fn gen_calls(depth: usize, ml: usize, mc: usize) -> Vec<T> {
+    gen_calls_with(&LEAVES, 3, depth, ml, mc)
+}
+
+fn gen_calls_with(alpha: &[T], arity: usize, depth: usize, ml: usize, mc: usize) -> Vec<T> {
     // children sequences under budget
-    fn seqs(depth: usize, arity_left: usize, ml: usize, mc: usize, out: &mut Vec<Vec<T>>, cur: &mut Vec<T>) {
+    #[allow(clippy::too_many_arguments)]
+    fn seqs(alpha: &[T], arity: usize, depth: usize, arity_left: usize, ml: usize, mc: usize, out: &mut Vec<Vec<T>>, cur: &mut Vec<T>) {
         out.push(cur.clone());
         if arity_left == 0 {
             return;
         }
         // next child: leaf
         if ml >= 1 {
-            for l in LEAVES.iter() {
+            for l in alpha.iter() {
                 cur.push(l.clone());
-                seqs(depth, arity_left - 1, ml - 1, mc, out, cur);
+                seqs(alpha, arity, depth, arity_left - 1, ml - 1, mc, out, cur);
                 cur.pop();
             }
         }
         // next child: call
         if depth >= 1 && mc >= 1 {
-            for sub in gen_calls(depth - 1, ml, mc) {
+            for sub in gen_calls_with(alpha, arity, depth - 1, ml, mc) {
                 let (l, c) = (sub.leaves(), sub.calls());
                 if l <= ml && c <= mc {
                     cur.push(sub);
-                    seqs(depth, arity_left - 1, ml - l, mc - c, out, cur);
+                    seqs(alpha, arity, depth, arity_left - 1, ml - l, mc - c, out, cur);
                     cur.pop();
                 }
             }
@@ -129,30 +134,52 @@ fn gen_calls(depth: usize, ml: usize, mc: usize) -> Vec<T> {
         return vec![];
     }
     let mut out = vec![];
-    seqs(depth, 3, ml, mc - 1, &mut out, &mut vec![]);
+    seqs(alpha, arity, depth, arity, ml, mc - 1, &mut out, &mut vec![]);
     // the compiler never publishes an empty call node below the root (a stateless call
     // contributes no node, mirgen::emit_fncall); the empty *root* (stateless dsp) is added by the caller
     out.into_iter().filter(|c| !c.is_empty()).map(T::Call).collect()
 }
 
 pub struct Space {
+    /// family A: 5 leaf kinds, arity <= 3, call nesting <= 3
     pub trees: Vec<T>,
+    /// family W ("wide"): leaf kinds {Mem1, Feed1}, arity <= 5, call nesting <= 2
+    pub wide: Vec<T>,
+}
+impl Space {
+    pub fn n_pairs(&self) -> u64 {
+        (self.trees.len() * self.trees.len() + self.wide.len() * self.wide.len()) as u64
+    }
+    pub fn pair(&self, idx: u64) -> (&T, &T, &'static str) {
+        let na = (self.trees.len() * self.trees.len()) as u64;
+        if idx < na {
+            let n = self.trees.len() as u64;
+            (&self.trees[(idx / n) as usize], &self.trees[(idx % n) as usize], "A")
+        } else {
+            let k = idx - na;
+            let n = self.wide.len() as u64;
+            (&self.wide[(k / n) as usize], &self.wide[(k % n) as usize], "W")
+        }
+    }
 }
 
 fn space(tier: Tier) -> &'static Space {
     static Q: OnceLock<Space> = OnceLock::new();
     static TH: OnceLock<Space> = OnceLock::new();
-    let (cell, ml, mc) = match tier {
-        Tier::Quick => (&Q, 3, 3),
-        Tier::Thorough => (&TH, 4, 3),
+    let (cell, ml, mc, wl) = match tier {
+        Tier::Quick => (&Q, 3, 3, 5),
+        Tier::Thorough => (&TH, 4, 3, 6),
     };
     cell.get_or_init(|| {
         let mut trees = gen_calls(2, ml, mc);
         trees.push(T::Call(vec![]));
         trees.sort();
         trees.dedup();
-        // a non-root empty call is kept (stateless helper around nothing); the root may be empty too
-        Space { trees }
+        let mut wide = gen_calls_with(&[T::Mem(1), T::Feed(1)], 5, 1, wl, 3);
+        wide.push(T::Call(vec![]));
+        wide.sort();
+        wide.dedup();
+        Space { trees, wide }
     })
 }
 
@@ -317,43 +344,55 @@ pub fn check_wellformed(old: &T, new: &T, pv: &PlanView, fails: &mut Vec<Fail>) 
     }
 }
 
-/// All scripts (D ⊆ nodes(old), I ⊆ nodes(new), non-nested, |D|+|I| <= k) with old∖D == new∖I.
+/// All scripts (D ⊆ nodes(old), I ⊆ nodes(new), non-nested, |D|+|I| <= k) with old∖D == new∖I,
+/// restricted to those with the minimal number of edits.
 fn scripts(old: &T, new: &T, k: usize) -> Vec<(Vec<Vec<usize>>, Vec<Vec<usize>>)> {
     fn subsets(t: &T, k: usize) -> Vec<Vec<Vec<usize>>> {
         let paths: Vec<Vec<usize>> = t.nodes().into_iter().filter(|n| !n.0.is_empty()).map(|n| n.0).collect();
-        let mut out = vec![vec![]];
-        if k >= 1 {
-            for p in &paths {
-                out.push(vec![p.clone()]);
+        let mut out = vec![];
+        fn rec(paths: &[Vec<usize>], start: usize, k: usize, cur: &mut Vec<Vec<usize>>, out: &mut Vec<Vec<Vec<usize>>>) {
+            out.push(cur.clone());
+            if cur.len() == k {
+                return;
             }
-        }
-        if k >= 2 {
-            for i in 0..paths.len() {
-                for j in i + 1..paths.len() {
-                    let (a, b) = (&paths[i], &paths[j]);
-                    if b.starts_with(a) || a.starts_with(b) {
-                        continue;
-                    }
-                    out.push(vec![a.clone(), b.clone()]);
+            for i in start..paths.len() {
+                let p = &paths[i];
+                if cur.iter().any(|q| p.starts_with(q) || q.starts_with(p)) {
+                    continue;
                 }
+                cur.push(p.clone());
+                rec(paths, i + 1, k, cur, out);
+                cur.pop();
             }
         }
+        rec(&paths, 0, k, &mut vec![], &mut out);
         out
     }
-    let mut out = vec![];
     let ds = subsets(old, k);
     let is = subsets(new, k);
-    let mut icache: Vec<(usize, T)> = is.iter().map(|i| (i.len(), new.remove_paths(i))).collect();
-    icache.sort_by_key(|x| x.0);
+    // new∖I keyed by the resulting tree
+    let mut by_tree: HashMap<T, Vec<usize>> = HashMap::new();
+    for (ii, i) in is.iter().enumerate() {
+        by_tree.entry(new.remove_paths(i)).or_default().push(ii);
+    }
+    let mut best = usize::MAX;
+    let mut out = vec![];
     for d in &ds {
+        if d.len() > best {
+            continue;
+        }
         let od = old.remove_paths(d);
-        for (ii, i) in is.iter().enumerate() {
-            if d.len() + i.len() > k {
-                continue;
-            }
-            let _ = ii;
-            if od == new.remove_paths(i) {
-                out.push((d.clone(), i.clone()));
+        if let Some(list) = by_tree.get(&od) {
+            for &ii in list {
+                let c = d.len() + is[ii].len();
+                if c > k || c > best {
+                    continue;
+                }
+                if c < best {
+                    best = c;
+                    out.clear();
+                }
+                out.push((d.clone(), is[ii].clone()));
             }
         }
     }
@@ -446,16 +485,19 @@ pub fn check_survival(old: &T, new: &T, pv: &PlanView, k: usize, fails: &mut Vec
     if old == new || pv.none {
         return 0;
     }
-    let sc = scripts(old, new, k);
+    let mut sc = scripts(old, new, k);
     if sc.is_empty() {
         return 0;
     }
+    // (scripts() already keeps only the simplest explanations: minimal number of edits)
+    sc.retain(|_| true);
     if pv.newst.len() != new.size() {
         return sc.len(); // clause 1 already reported
     }
     let olds = tagged(old.size());
     let mut best: Option<String> = None;
     let mut max_surv_cells = 0usize;
+    let mut min_surv_subtrees = usize::MAX;
     let mut shares_shape_in_all = true;
     let mut ok = false;
     for (d, i) in &sc {
@@ -474,7 +516,13 @@ pub fn check_survival(old: &T, new: &T, pv: &PlanView, k: usize, fails: &mut Vec
                 lost.push(format!("old{op:?}@{oa}+{oz}->new{np:?}@{na}"));
             }
         }
-        max_surv_cells = max_surv_cells.max(cells);
+        let nsub = surv.iter().filter(|(op, _)| node_at(old, op).size() > 0).count();
+        if cells > max_surv_cells || min_surv_subtrees == usize::MAX {
+            max_surv_cells = cells;
+            min_surv_subtrees = nsub;
+        } else if cells == max_surv_cells {
+            min_surv_subtrees = min_surv_subtrees.min(nsub);
+        }
         let (mut dsh, mut ish) = (vec![], vec![]);
         for p in d {
             leaf_shapes(node_at(old, p), &mut dsh);
@@ -511,15 +559,23 @@ pub fn check_survival(old: &T, new: &T, pv: &PlanView, k: usize, fails: &mut Vec
     if ok {
         return sc.len();
     }
-    let clause = if carried >= max_surv_cells {
-        "surviving_subtree_not_carried_equal_cells"
-    } else {
+    let npatches = pv.patches.iter().filter(|p| p.2 > 0).count();
+    let clause = if carried < max_surv_cells {
         "surviving_subtree_not_carried_fewer_cells"
+    } else if carried > max_surv_cells {
+        // the plan follows a costlier explanation that keeps more cells than the simplest one
+        "surviving_subtree_not_carried_more_cells"
+    } else if npatches > min_surv_subtrees {
+        // as many cells as the simplest explanation keeps, but in more (smaller) pieces:
+        // a whole surviving subtree was split up / moved into a partial match
+        "surviving_subtree_not_carried_fragmented"
+    } else {
+        "surviving_subtree_not_carried_equal_cells"
     };
     fails.push(Fail {
         clause: clause.into(),
         detail: format!(
-            "no script of <= {k} edits explains the plan {:?} (carries {carried} cells, best script keeps {max_surv_cells}); e.g. {}",
+            "no minimal script (of <= {k} edits) explains the plan {:?} (carries {carried} cells, best script keeps {max_surv_cells}); e.g. {}",
             pv.patches,
             best.unwrap_or_default()
         ),
@@ -534,8 +590,7 @@ impl Prop for C08 {
         "C08"
     }
     fn n_cases(&self, tier: Tier) -> u64 {
-        let n = space(tier).trees.len() as u64;
-        n * n
+        space(tier).n_pairs()
     }
     fn chunk(&self, _t: Tier) -> u64 {
         20_000
@@ -545,8 +600,7 @@ impl Prop for C08 {
     }
     fn run_case(&self, tier: Tier, idx: u64) -> CaseOut {
         let sp = space(tier);
-        let n = sp.trees.len() as u64;
-        let (old, new) = (&sp.trees[(idx / n) as usize], &sp.trees[(idx % n) as usize]);
+        let (old, new, fam) = sp.pair(idx);
         let mut fails = vec![];
         let mut counters = vec![];
         let mut tags = vec![];
@@ -561,7 +615,7 @@ impl Prop for C08 {
             }
             Ok(pv) => {
                 check_wellformed(old, new, &pv, &mut fails);
-                let ns = check_survival(old, new, &pv, 2, &mut fails, &mut tags);
+                let ns = check_survival(old, new, &pv, if fam == "W" { 4 } else { 3 }, &mut fails, &mut tags);
                 if ns > 0 {
                     counters.push(("edit_script_pairs".to_string(), 1));
                     counters.push(("explaining_scripts".to_string(), ns as u64));
@@ -573,7 +627,8 @@ impl Prop for C08 {
                 };
             }
         }
-        let repr = json!({"old": old.show(), "new": new.show()});
+        let repr = json!({"old": old.show(), "new": new.show(), "family": fam});
+        counters.push((format!("family_{fam}"), 1));
         CaseOut {
             key: idx,
             nontrivial: old != new,
@@ -586,21 +641,22 @@ impl Prop for C08 {
     }
     fn describe(&self, tier: Tier) -> Descr {
         let sp = space(tier);
-        let (ml, mc) = match tier {
-            Tier::Quick => (3, 3),
-            Tier::Thorough => (4, 3),
+        let (ml, mc, wl) = match tier {
+            Tier::Quick => (3, 3, 5),
+            Tier::Thorough => (4, 3, 6),
         };
         Descr {
             rule: format!(
-                "all ordered pairs (old,new) of the {} state layouts with root FnCall, arity<=3, call nesting<=3, <= {ml} leaves from {{Mem1,Feed1,Feed2,Delay1,Delay2}}, <= {mc} calls; pair index = i*n+j is a bijection; non-trivial = old != new. \
-                 Clause 2 is evaluated on every pair for which some script of <=2 subtree deletions/insertions maps old to new (counter edit_script_pairs).",
-                sp.trees.len()
+                "family A: all ordered pairs (old,new) of the {} state layouts with root FnCall, arity<=3, call nesting<=3, <= {ml} leaves from {{Mem1,Feed1,Feed2,Delay1,Delay2}}, <= {mc} calls; family W (wide): all ordered pairs of the {} layouts with arity<=5, call nesting<=2, <= {wl} leaves from {{Mem1,Feed1}}, <=3 calls; pair index is a bijection per family; non-trivial = old != new. \
+                 Clause 2 is evaluated on every pair for which some script of <=3 (family A) / <=4 (family W) subtree deletions/insertions maps old to new; only scripts with the minimal number of edits count (counter edit_script_pairs).",
+                sp.trees.len(),
+                sp.wide.len()
             ),
             assumptions: vec![
                 "layouts larger than the bound, leaf sizes other than {1,2}, arity > 3 are not covered".into(),
-                "clause 2 accepts a plan if it carries all survivors of at least one explaining script with <= 2 edits (weakest reading; avoids false alarms where two scripts explain the same pair)".into(),
+                "clause 2 accepts a plan if it carries all survivors of at least one explaining script among those with the minimal number (<= 2) of subtree deletions/insertions (two minimal scripts explaining the same pair are both accepted)".into(),
             ],
-            bounds: json!({"max_leaves": ml, "max_calls": mc, "max_arity": 3, "max_call_nesting": 3, "edit_script_len": 2, "layouts": sp.trees.len()}),
+            bounds: json!({"max_leaves": ml, "max_calls": mc, "max_arity": 3, "max_call_nesting": 3, "edit_script_len_family_A": 3, "edit_script_len_family_W": 4, "layouts": sp.trees.len(), "wide_layouts": sp.wide.len(), "wide_max_leaves": wl, "wide_max_arity": 5}),
             shape: "E",
         }
     }
@@ -613,11 +669,8 @@ impl Prop for C08 {
     }
     fn describe_case(&self, tier: Tier, idx: u64) -> (Value, Vec<String>) {
         let sp = space(tier);
-        let n = sp.trees.len() as u64;
-        (
-            json!({"old": sp.trees[(idx / n) as usize].show(), "new": sp.trees[(idx % n) as usize].show()}),
-            vec![],
-        )
+        let (old, new, fam) = sp.pair(idx);
+        (json!({"old": old.show(), "new": new.show(), "family": fam}), vec![])
     }
 }
 
